@@ -332,7 +332,94 @@ def _op_integral(work, seed):
     return "integral: volume_integral(PlotfileCooker(path, ghost=True), field)", call
 
 
-OPS = {"index": _op_index, "iterate": _op_iterate, "strain": _op_strain, "combine": _op_combine,
+def _op_whip(work, seed):
+    m, path = small_plotfile(work, seed)
+    out = os.path.join(work, "ugrid_out")
+    mod = common.repo_module("amr_kitchen.whip.cli")
+
+    def call(k):
+        for fn in os.listdir(work):
+            if fn.startswith("ugrid_out"):
+                os.remove(os.path.join(work, fn))
+        with common.argv(["whip", "-v", "f1", "-y", "-o", out, path]), common.quiet_fds(os.path.join(work, ".whip_stdio")):
+            mod.main()
+        made = sorted(fn for fn in os.listdir(work) if fn.startswith("ugrid_out"))
+        return digest(made, [np.load(os.path.join(work, fn)) for fn in made])
+    return "whip: the whip entry point writing the uniform grid of one field", call
+
+
+def _recipe_sum(fi, arr):
+    """f0_plus_f2"""
+    return arr[..., fi["f0"]] + arr[..., fi["f2"]]
+
+
+def _op_cook(work, seed):
+    from amr_kitchen.chef import Chef
+    m, path = small_plotfile(work, seed)
+    out = os.path.join(work, "cooked")
+
+    def call(k):
+        ds = []
+        for kept in (None, "f1"):       # pathos caches its worker processes: both forms in every call
+            shutil.rmtree(out, ignore_errors=True)
+            Chef(plotfile=path, recipe=_recipe_sum, outfile=out, kept_fields=kept, serial=False).cook()
+            ds.append(tree_digest(out))
+        return digest(ds)
+    return "cook: Chef(user recipe, serial=False).cook() without, then with a kept field", call
+
+
+def _op_convert(work, seed):
+    from amr_kitchen.chk2plt.chk2plt import chk2plt
+    from . import chkgen
+    chk = os.path.join(work, "chk00007")
+    shutil.rmtree(chk, ignore_errors=True)
+    chkgen.gen_chk(seed=seed, path=chk, nspecies=2, nghost=1, nlevels=2, bf=2, base_blocks=(2, 3))
+    out = os.path.join(work, "converted")
+
+    def call(k):
+        shutil.rmtree(out, ignore_errors=True)
+        chk2plt(chk, species=["H2", "O2"], pltdir=out)
+        return tree_digest(out)
+    return "convert: chk2plt(checkpoint, species, pltdir) into a fresh output", call
+
+
+def _op_points(work, seed):
+    from amr_kitchen import PlotfileCooker
+    m, path = small_plotfile(work, seed, bf=4, base_blocks=(1, 2))
+    pts = []
+    for lv in range(m.nlevels):
+        for bi, b in enumerate(m.boxes[lv]):
+            if min(b.shape) >= 3 and gen.uncovered_mask(m, lv, bi, m.nlevels - 1)[1, 1, 1]:
+                pts.append([m.geo_low[d] + (b.lo[d] + 1.5) * m.dx[lv][d] for d in range(3)])
+    pts = pts[:6]
+
+    def call(k):
+        pck = PlotfileCooker(path)
+        return digest([np.asarray(pck["f1"](*p)).tolist() for p in pts], [np.asarray(pck[["f0", "f2"]](*p)).tolist() for p in pts])
+    return f"points: {len(pts)} interior cell-centre queries (one field, two fields) on a fresh reader", call
+
+
+def _op_menu(work, seed):
+    m, path = small_plotfile(work, seed)
+    menu = common.repo_module("amr_kitchen.menu.cli")
+    mar = common.repo_module("amr_kitchen.marinate")
+    import pickle, io, contextlib
+
+    def call(k):
+        buf = io.StringIO()
+        with common.argv(["menu", path, "-m"]), contextlib.redirect_stdout(buf):
+            menu.main()
+        with common.argv(["marinate", path]), contextlib.redirect_stdout(io.StringIO()):
+            mar.main()
+        with open(path + ".pkl", "rb") as f:
+            pck = pickle.load(f)
+        os.remove(path + ".pkl")
+        return digest(buf.getvalue(), pck["f2"][0][1])
+    return "menu: menu -m, marinate, unpickle, one box read through the unpickled reader", call
+
+
+OPS = {"whip": _op_whip, "cook": _op_cook, "convert": _op_convert, "points": _op_points, "menu": _op_menu,
+       "index": _op_index, "iterate": _op_iterate, "strain": _op_strain, "combine": _op_combine,
        "slice3d": _op_slice3d, "flatten2d": _op_flatten2d, "slice_plotfile": _op_slice_plotfile,
        "taste": _op_taste, "integral": _op_integral}
 
